@@ -85,7 +85,19 @@ fn run<V: Comps>(case: &Value) -> (bool, Vec<Value>) {
     let verts: [Vertex<ScreenPt, V>; 3] = [vs[0].clone(), vs[1].clone(), vs[2].clone()];
     let mut rows = vec![];
     let ok = guard(|| {
+        let skipping = case.get("skip").and_then(|v| v.as_i64()).unwrap_or(0) == 1;
         tri_fill(verts, |mut sl| {
+            // a consumer may skip the first columns of a span through the public stepping iterator
+            // (Scanline::vs) before asking for the fragments: what remains are the fragments of the
+            // remaining pixels
+            let mut skipped = 0usize;
+            if skipping {
+                let k = 1 + sl.y % 3;
+                if k < sl.xs.end.saturating_sub(sl.xs.start) {
+                    let _ = sl.vs.nth(k - 1);
+                    skipped = k;
+                }
+            }
             let frags: Vec<Value> = sl
                 .fragments()
                 .take(100_000)
@@ -102,7 +114,7 @@ fn run<V: Comps>(case: &Value) -> (bool, Vec<Value>) {
                 })
                 .collect();
             let cap = |x: usize| x.min(1 << 30);
-            rows.push(json!([cap(sl.y), cap(sl.xs.start), cap(sl.xs.end), frags.len(), frags]));
+            rows.push(json!([cap(sl.y), cap(sl.xs.start + skipped), cap(sl.xs.end), frags.len(), frags]));
         })
     })
     .is_some();
@@ -139,7 +151,8 @@ fn emit(out: &mut dyn Write, key: String, s: i64, v: [[i64; 2]; 3], rng: &mut Rn
     let z: Vec<i64> = if rng.chance(1, 4) { vec![20, 20, 20] } else { (0..3).map(|_| *rng.pick(&ZS)).collect() };
     let a = attrs(rng, n, 32);
     let zsc = [0i64, 0, -14, 0, -20, 6][(tyi / TYS.len()) % 6];
-    writeln!(out, "{}", json!({"k": key, "s": s, "v": v, "Z": z, "A": a, "ty": ty, "c05": small as u8, "zsc": zsc})).unwrap();
+    let skip = key.starts_with('S') as u8;
+    writeln!(out, "{}", json!({"k": key, "s": s, "v": v, "Z": z, "A": a, "ty": ty, "c05": small as u8, "zsc": zsc, "skip": skip})).unwrap();
 }
 
 pub fn gen(args: &Args, out: &mut dyn Write) {
@@ -165,6 +178,22 @@ pub fn gen(args: &Args, out: &mut dyn Write) {
             }
         }
     }
+    // 1b. "skip": the lattice triangles again (every 5th), consumed with a few columns skipped per span
+    if mode == "skip" {
+        let g: i64 = 3;
+        let pts: Vec<[i64; 2]> = (0..=2 * g).flat_map(|x| (0..=2 * g).map(move |y| [x, y])).collect();
+        let mut idx = 0usize;
+        for a in &pts {
+            for b in &pts {
+                for c in &pts {
+                    idx += 1;
+                    if idx % 5 == 2 {
+                        emit(out, format!("S{g}-{idx}"), 1, [*a, *b, *c], &mut rng, true, idx);
+                    }
+                }
+            }
+        }
+    }
     // 2. seeded random triangles on finer lattices / larger grids
     if mode == "random" || mode == "all" {
         let n = args.n.unwrap_or(if thorough { 400_000 } else { 30_000 });
@@ -176,7 +205,8 @@ pub fn gen(args: &Args, out: &mut dyn Write) {
                 _ => (8, 12, false), // floats snapped to 1/256 px (coverage only)
             };
             let m = grid << s;
-            let lo = if i % 16 == 7 { -(2 << s) } else { 0 };
+            // (partly off-grid to the left / above: also on the lattices whose fragments are judged)
+            let lo = if i % 16 == 7 { -(2 << s) } else if i % 16 == 4 || i % 16 == 5 { -(3 << s) } else { 0 };
             let mut v = [[0i64; 2]; 3];
             for p in v.iter_mut() {
                 *p = [rng.range(lo, m), rng.range(lo, m)];
@@ -188,6 +218,15 @@ pub fn gen(args: &Args, out: &mut dyn Write) {
                 2 => v[2] = [v[0][0] + rng.range(-3, 3), v[0][1] + rng.range(-3, 3)],
                 3 => v[1] = [v[0][0] + rng.range(0, 2 << s), v[0][1] + rng.range(0, 1 << s)],
                 _ => {}
+            }
+            // a tiny triangle (a few hundredths of a pixel across) around a pixel centre: its only
+            // fragment must still be produced
+            if s == 8 && i % 16 == 11 {
+                let c = [(rng.range(0, grid - 1) << s) + 128, (rng.range(0, grid - 1) << s) + 128];
+                let r = *rng.pick(&[2i64, 4, 8, 16]);
+                for p in v.iter_mut() {
+                    *p = [c[0] + rng.range(-r, r), c[1] + rng.range(-r, r)];
+                }
             }
             // fine lattices: one vertex exactly on a row of pixel centres (y = k + 1/2), where the
             // two halves of the triangle meet on a sampling row
